@@ -357,6 +357,22 @@ func scenarioForged(c *harness.Ctx) {
 			forged = frame.PutVarint(nil, neg)
 			forged = append(forged, bytes.Repeat([]byte{0}, 64)...)
 			desc = fmt.Sprintf("uncompressed total length %d", neg)
+		} else if threshold <= 2 && tp.Bool(1, 3) {
+			// data length positive (and not below the threshold) but smaller than the
+			// id's own encoding inside a well-formed zlib stream: the declared
+			// payload size (data length - len(id)) is negative
+			pForgedShortDL.Hit()
+			longID := []int32{16384, 1 << 21, 1 << 28, -1}[tp.Choose(4)]
+			idLen := len(frame.PutVarint(nil, longID))
+			lo := max(1, threshold)
+			dl := lo + tp.Choose(idLen-lo)
+			whole := frame.Build(longID, tp.Bytes(tp.Choose(40)), true, true)
+			_, hl, _ := varintLen(whole)
+			_, dll, _ := varintLen(whole[hl:])
+			body := append(frame.PutVarint(nil, int32(dl)), whole[hl+dll:]...)
+			forged = frame.PutVarint(nil, int32(len(body)))
+			forged = append(forged, body...)
+			desc = fmt.Sprintf("data length %d with a %d-byte id in the zlib stream (payload size %d)", dl, idLen, dl-idLen)
 		} else {
 			body := frame.PutVarint(nil, neg) // data length negative
 			if tp.Bool(1, 2) {
@@ -481,3 +497,5 @@ type nullStream struct{}
 func (nullStream) XORKeyStream(dst, src []byte) { copy(dst, src) }
 
 var pNullCipher = simrt.NewProbe("stream.identity.cipher.installed.after.SetThreshold")
+
+var pForgedShortDL = simrt.NewProbe("forged.data.length.shorter.than.the.id.in.the.zlib.stream")
